@@ -250,6 +250,8 @@ func (fr *frame) instr(b *ssa.BasicBlock, ins ssa.Instruction, st *state) bool {
 		}
 		id := g.fresh(fr.prefix+"clo_"+fn.Name(), "Int")
 		g.assert("(and (> " + id + " 0) (< " + id + " " + g.base(st, "next", "Int", 0, false) + "))")
+		// the code a closure value runs (ghost function cloFn; a bound-method value runs the method)
+		g.assert("(= (cloFn " + id + ") " + g.U.funcID(closureTarget(fn)) + ")")
 		fr.env[x] = &Term{S: id, T: x.Type(), Clo: c}
 	case *ssa.Call:
 		fr.call(x, st)
@@ -975,4 +977,20 @@ func (fr *frame) storeSiteObligations(x *ssa.Store, l *Loc, v *Term, st *state) 
 		}
 		g.addObl(fr, st, "storesite", c.Field+"["+c.Label+"]:"+fr.srcAnchor(x.Pos(), nil, "store"), "store-site condition "+c.Label, x.Pos(), cond)
 	}
+}
+
+// closureTarget: the function a closure value executes; for a bound-method wrapper (p.parseInt as a value) the method.
+func closureTarget(fn *ssa.Function) *ssa.Function {
+	if strings.HasPrefix(fn.Synthetic, "bound method wrapper") {
+		for _, b := range fn.Blocks {
+			for _, ins := range b.Instrs {
+				if c, ok := ins.(*ssa.Call); ok {
+					if t := c.Common().StaticCallee(); t != nil {
+						return t
+					}
+				}
+			}
+		}
+	}
+	return fn
 }
